@@ -5,6 +5,7 @@ ALL = ["C%02d" % i for i in range(1, 21)]
 technique = "bounded symbolic execution of the real go/ssa of /repo (own engine gosym) with SMT (z3 5.1.0) deciding every assertion / panic / branch over all inputs within the stated bounds; counterexamples replayed natively against the real build"
 level_note = "trusted: go/packages+go/ssa faithful to the compiler; the gosym interpreter and its intrinsics (listed in the evidence); z3; per-property stubs listed in the evidence; bounds as stated in evidence.coverage.bounds"
 claimed = {
+ "C08": "three stages sharing one task (different env / variables / dir overrides) in four dependency arrangements through the real buildTask, buildPipeline, Scheduler.Schedule and runStage in thread mode, then a second pipeline and a direct-run view: every stage's Run sees the task's own settings overlaid with exactly its own overrides, for all values, and the shared task is unchanged afterwards",
  "C14": "real ExecutionContext.Up/Before/After/Down, contextForTask, TaskRunner.Run and Finish with a recording executor stub and symbolic outcomes for every context and task command: up first and once, exactly one context-before block before and one context-after block after each task execution (also when it fails), nothing runs for a context whose up failed and Run reports an error, down exactly once and only for used contexts; two simultaneous runs on a fresh context under every interleaving (sync.Once); the CLI reaches Finish whether the target succeeded or failed",
  "C12": "thread-mode exploration of the real TaskRunner.Run / Cancel protocol (RWMutex, WaitGroup/channel, context) with 0..3 concurrent runs and Cancel called once or twice, every interleaving at visible operations (preemption-unbounded for <=1 run, bound 3 for 2, bound 1 for 3), symbolic command outcomes: no panic, no deadlock (Cancel and every Run return), no command starts after Cancel returned, interrupted / late runs report an error",
  "C01": "rely/guarantee over the real Scheduler.Schedule SSA: one pass from an arbitrary invariant state with symbolic worker interference at every atomic operation (all 3-stage graphs, symbolic allow_failure/outcome/condition): at every launch all dependencies are finished in memory at that instant; the real worker closure publishes a status only after the task returned; thread-mode whole runs (preemption bound 1; thorough 2) cross-check end to end",
